@@ -456,6 +456,7 @@ class Function:
         except Exception:
             _LOGGER.error("run_coro: got exception %s", traceback.format_exc(-1))
         finally:
+            cancelled_in_callback = None
             try:
                 if task in cls.task2cb:
                     # a done callback may add or remove callbacks of this task: iterate over a snapshot
@@ -465,9 +466,15 @@ class Function:
                         ast_ctx, args, kwargs = info
                         try:
                             await ast_ctx.call_func(callback, None, *args, **kwargs)
+                        except asyncio.CancelledError as e:
+                            # cancelled while a done callback is suspended: the other callbacks still
+                            # run (each exactly once), then the task ends cancelled
+                            cancelled_in_callback = e
                         except Exception as e:
                             # a failing done callback doesn't prevent the other ones from running
                             ast_ctx.log_exception(e)
+                if cancelled_in_callback is not None:
+                    raise cancelled_in_callback
             finally:
                 # forget the task even if it is cancelled while a done callback runs
                 if task in cls.unique_task2name:
